@@ -234,6 +234,7 @@ func cls2(p string) string {
 func genC01(r *Rng, nops int, malformedPM int) (items []string, wellFormed bool, explicit map[string]bool) {
 	g := NewGen(r)
 	g.Malformed = malformedPM
+	g.BelowFile = 60
 	for i := 0; i < nops; i++ {
 		g.Step()
 		if r.Chance(1, 12) {
